@@ -201,6 +201,16 @@ func vfC30ExecRTP(c vfC30Case) {
 	}) {
 		return
 	}
+	if c.Local >= 2 {
+		// the victim also gets a send-only transceiver (no receiver behind it) in a second exchange it offers
+		if tb, err := NewTrackLocalStaticRTP(RTPCodecCapability{MimeType: MimeTypeVP8}, "vb", "s"); err == nil {
+			if _, err = pcB.AddTransceiverFromTrack(tb, RTPTransceiverInit{Direction: RTPTransceiverDirectionSendonly}); err == nil {
+				if err := vfPairSignal(pcB, pcA, nil); err != nil {
+					return
+				}
+			}
+		}
+	}
 	sess, err := pcA.dtlsTransport.getSRTPSession()
 	if err != nil {
 		return
@@ -842,7 +852,7 @@ func vfC30GenCand(v *vfT) vfC30Case {
 
 func vfC30GenRTP(v *vfT) vfC30Case {
 	t := v.R
-	c := vfC30Case{Kind: "rtp", Semantics: int(SDPSemanticsUnifiedPlan), Local: rapid.IntRange(0, 1).Draw(t, "local")}
+	c := vfC30Case{Kind: "rtp", Semantics: int(SDPSemanticsUnifiedPlan), Local: rapid.IntRange(0, 2).Draw(t, "local")}
 	n := rapid.IntRange(1, 12).Draw(t, "n")
 	for i := 0; i < n; i++ {
 		var p vfC30Pkt
@@ -870,11 +880,32 @@ func vfC30GenRTP(v *vfT) vfC30Case {
 			val := rapid.OneOf(
 				rapid.SliceOfN(rapid.Byte(), 1, maxLen),
 				rapid.SliceOfN(rapid.SampledFrom([]byte("0123456789aqhf")), 1, 3),
+				// plausible mids / rids: the m-section ids pion hands out and common simulcast rids
+				rapid.SampledFrom([][]byte{[]byte("0"), []byte("1"), []byte("2"), []byte("3"), []byte("a"), []byte("q"), []byte("h"), []byte("f")}),
+				rapid.SampledFrom([][]byte{[]byte("0"), []byte("1"), []byte("2"), []byte("3")}),
 			).Draw(t, "val")
 			p.Exts = append(p.Exts, struct {
 				ID  uint8  `json:"id"`
 				Val []byte `json:"val"`
 			}{ID: rapid.SampledFrom([]uint8{1, 2, 3, 4, 5, 14}).Draw(t, "id"), Val: val})
+		}
+		if rapid.IntRange(0, 2).Draw(t, "targeted") == 0 {
+			// an undeclared SSRC that names an existing m-section by mid and carries a rid / repaired rid
+			p.SSRCKind = 1
+			p.Exts = p.Exts[:0]
+			add := func(id uint8, vals []string) {
+				p.Exts = append(p.Exts, struct {
+					ID  uint8  `json:"id"`
+					Val []byte `json:"val"`
+				}{ID: id, Val: []byte(rapid.SampledFrom(vals).Draw(t, "tval"))})
+			}
+			add(1, []string{"0", "1", "2", "3"})
+			if rapid.Bool().Draw(t, "with-rid") {
+				add(2, []string{"a", "q", "h", "f", "1"})
+			}
+			if rapid.IntRange(0, 3).Draw(t, "with-rrid") == 0 {
+				add(3, []string{"a", "q", "h", "f", "1"})
+			}
 		}
 		p.Payload = rapid.SliceOfN(rapid.Byte(), 0, 60).Draw(t, "payload")
 		if rapid.IntRange(0, 3).Draw(t, "pad") == 0 {
@@ -927,7 +958,7 @@ func TestVerif_C30_Cand(t *testing.T) {
 
 func TestVerif_C30_RTP(t *testing.T) {
 	defer vfC30Shutdown()
-	defer vfScaleChecks(1, 8)()
+	defer vfScaleChecks(1, 6)()
 	vfProperty(t, "C30", vfC30Opts, func(v *vfT) vfC30Case { c := vfC30GenRTP(v); v.NonTrivial(); return c }, vfC30Run)
 }
 
